@@ -1016,7 +1016,7 @@ func validateShorthand(scSchorthand string) (byte, error) {
 		return 0, errors.New("only ASCII characters allowed as scene shorthands")
 	}
 	scChar := scSchorthand[0]
-	if !unicode.In(rune(scChar), unicode.L, unicode.N) {
+	if scChar >= utf8.RuneSelf || !unicode.In(rune(scChar), unicode.L, unicode.N) {
 		return 0, errors.New("only ASCII letters, digits and punctuation allowed as scene shorthands")
 	}
 	return scChar, nil
